@@ -27,7 +27,11 @@ use zlink_core::{connection::socket::Socket, Call, Connection, ReplyError};
 #[serde(tag = "method", content = "parameters")]
 enum MC {
     #[serde(rename = "c.Do")]
-    Do { tag: u32 },
+    Do {
+        tag: u32,
+        #[serde(default, skip_serializing_if = "String::is_empty")]
+        pad: String,
+    },
 }
 
 #[derive(Debug, Deserialize, PartialEq)]
@@ -103,8 +107,8 @@ fn canon_item(r: &zlink_core::Result<zlink_core::reply::Result<BTag<'_>, EBC<'_>
     }
 }
 
-fn call_for(k: K, tag: u32) -> Call<MC> {
-    let c = Call::new(MC::Do { tag });
+fn call_for(k: K, tag: u32, pad: usize) -> Call<MC> {
+    let c = Call::new(MC::Do { tag, pad: if pad == 0 { String::new() } else { text_of(tag ^ 0xABCDE, pad) } });
     match k {
         K::Plain => c,
         K::Oneway => c.set_oneway(true),
@@ -120,6 +124,11 @@ struct Case {
     preload: bool,
     hold: bool,
     seed: u64,
+    /// bytes of padding in every call of the chain (0 = small calls); big chains exceed what the kernel takes in
+    /// one write
+    pad: usize,
+    /// oneway calls sent one by one before the chain (a connection that has been written to before)
+    warm: usize,
 }
 
 struct Out {
@@ -132,10 +141,20 @@ struct Out {
 async fn client<S: Socket>(kind: Kind, mut conn: Connection<S>, case: &Case, go: std::sync::mpsc::Receiver<()>) -> Result<Out, (String, String)> {
     let inc = |e: String| ("inconclusive".to_string(), e);
     let mut out = Out { items: Vec::new(), ended: false, leftovers: Vec::new(), damaged: None };
+    for w in 0..case.warm {
+        match with_deadline(kind, Duration::from_secs(60), conn.send_call(&call_for(K::Oneway, 7000 + w as u32, 0))).await {
+            Some(Ok(())) => {}
+            Some(Err(e)) => return Err(inc(format!("warm-up send: {e:?}"))),
+            None => return Err(inc("warm-up send did not finish within 60 s".into())),
+        }
+        if w == 0 {
+            crate::c19::sleep(kind, Duration::from_micros(300)).await;
+        }
+    }
     {
-        let mut chain = conn.chain_call::<MC, BTag<'_>, EBC<'_>>(&call_for(case.kinds[0], 0)).map_err(|e| inc(format!("enqueue: {e:?}")))?;
+        let mut chain = conn.chain_call::<MC, BTag<'_>, EBC<'_>>(&call_for(case.kinds[0], 0, case.pad)).map_err(|e| inc(format!("enqueue: {e:?}")))?;
         for (i, k) in case.kinds.iter().enumerate().skip(1) {
-            chain = chain.append(&call_for(*k, i as u32)).map_err(|e| inc(format!("enqueue: {e:?}")))?;
+            chain = chain.append(&call_for(*k, i as u32, case.pad)).map_err(|e| inc(format!("enqueue: {e:?}")))?;
         }
         let stream = match with_deadline(kind, Duration::from_secs(60), chain.send()).await {
             Some(Ok(s)) => s,
@@ -205,18 +224,29 @@ async fn client<S: Socket>(kind: Kind, mut conn: Connection<S>, case: &Case, go:
 
 fn one_case(prop: &str, kind: Kind, case: Case, rep: &mut Report) {
     let desc = format!(
-        "client world {} seed={} chain={:?} owed={} trailing={} pieces={} burst_written_before_first_item={} items_held={}",
-        kind.name(), case.seed, case.kinds, case.replies.len(), case.trailing.len(), case.cuts.len() + 1, case.preload, case.hold
+        "client world {} seed={} chain={:?} owed={} trailing={} pieces={} burst_written_before_first_item={} items_held={} call_padding={} sends_before_the_chain={}",
+        kind.name(), case.seed, case.kinds, case.replies.len(), case.trailing.len(), case.cuts.len() + 1, case.preload, case.hold, case.pad, case.warm
     );
+    if case.pad > 0 {
+        rep.count("real_socket_big_chains");
+        rep.max("real_socket_max_bytes_of_one_chain", (case.pad * case.kinds.len()) as u64);
+    }
+    if case.warm > 0 {
+        rep.count("real_socket_chains_on_a_connection_written_to_before");
+    }
     rep.eval(vnet::fnv(desc.as_bytes()));
     rep.count(&format!("real_socket_cases.{}", kind.name()));
     let replay = json!({"monitor": prop.to_lowercase(), "case": desc});
-    let expect_calls: Vec<u8> = case.kinds.iter().enumerate().flat_map(|(i, k)| {
-        let mut b = serde_json::to_vec(&call_for(*k, i as u32)).unwrap();
-        b.push(0);
-        b
-    }).collect();
-    let ncalls = case.kinds.len();
+    let mut expect_calls: Vec<u8> = Vec::new();
+    for w in 0..case.warm {
+        expect_calls.extend(serde_json::to_vec(&call_for(K::Oneway, 7000 + w as u32, 0)).unwrap());
+        expect_calls.push(0);
+    }
+    for (i, k) in case.kinds.iter().enumerate() {
+        expect_calls.extend(serde_json::to_vec(&call_for(*k, i as u32, case.pad)).unwrap());
+        expect_calls.push(0);
+    }
+    let ncalls = case.kinds.len() + case.warm;
     let burst: Vec<u8> = case.replies.iter().chain(case.trailing.iter()).flat_map(|r| r.bytes()).collect();
     let chunks = vnet::chunks_at(&burst, &case.cuts);
     let preload = case.preload;
@@ -246,10 +276,18 @@ fn one_case(prop: &str, kind: Kind, case: Case, rep: &mut Report) {
             let mut calls = Vec::new();
             sb.set_read_timeout(Some(Duration::from_secs(60))).ok();
             let mut buf = [0u8; 4096];
-            while calls.iter().filter(|b| **b == 0).count() < ncalls {
+            let mut seen = 0usize;
+            while seen < ncalls {
                 match sb.read(&mut buf) {
                     Ok(0) => break,
-                    Ok(n) => calls.extend_from_slice(&buf[..n]),
+                    Ok(n) => {
+                        seen += buf[..n].iter().filter(|b| **b == 0).count();
+                        calls.extend_from_slice(&buf[..n]);
+                        // a peer that is slow to take a big chain: the client meets a full socket
+                        if calls.len() > 60_000 && r.chance(1, 40) {
+                            std::thread::sleep(Duration::from_micros(300));
+                        }
+                    }
                     Err(e) => return Err(format!("peer read: {e}")),
                 }
             }
@@ -352,7 +390,9 @@ fn gen_case(rng: &mut Rng, hold: bool, seed: u64) -> Case {
         c.dedup();
         c
     };
-    Case { kinds, replies, trailing, cuts, preload, hold, seed }
+    let pad = if !hold && rng.chance(1, 6) { *rng.pick(&[30_000usize, 70_000, 120_000, 260_000]) + rng.below(500) } else { 0 };
+    let warm = if !hold && rng.chance(1, 2) { rng.range(1, 3) } else { 0 };
+    Case { kinds, replies, trailing, cuts, preload, hold, seed, pad, warm }
 }
 
 pub fn run(prop: &str, cfg: &Cfg) -> Report {
